@@ -88,19 +88,20 @@ func runC18(c *Ctx) {
 	}
 	c.Bound("workloads", fmt.Sprintf("%d workloads (QoS 1 publish, QoS 2 publish (either phase), subscribe, unsubscribe; alone, before Connect, followed by a second publish); ResponseTimeout %v, reconnect wait 1 s; faults %+v (answer withheld, link stays up) on first transmissions and retransmissions, F<=%d; T<=1", len(wls), c18Timeout, faults, f))
 	var sample *rcRun
-	for wi, reqs := range append(wls, wls[0], wls[9], wls[0], wls[5], wls[0], wls[6], wls[0], wls[3]) {
+	for wi, reqs := range append(wls, wls[0], wls[9], wls[0], wls[5], wls[0], wls[6], wls[0], wls[3], wls[0], wls[3]) {
 		reqs := reqs
-		late := wi >= len(wls) && wi < len(wls)+2 // ResponseTimeout is assigned to the RetryClient only after Connect returned
-		reuse := wi >= len(wls)+6                 // the dialer hands out the same *BaseClient with a fresh transport every time
-		reent := wi >= len(wls)+4 && !reuse       // OnError and ConnState call back into the client
-		pipe := wi >= len(wls)+2 && !reent        // the transport reports io.ErrClosedPipe after a local Close (default: socket-style net.ErrClosed)
+		late := wi >= len(wls) && wi < len(wls)+2        // ResponseTimeout is assigned to the RetryClient only after Connect returned
+		cancelCtx := wi >= len(wls)+8                    // the context given to Connect is cancelled as soon as Connect has returned
+		reuse := wi >= len(wls)+6 && !cancelCtx          // the dialer hands out the same *BaseClient with a fresh transport every time
+		reent := wi >= len(wls)+4 && !reuse              // OnError and ConnState call back into the client
+		pipe := wi >= len(wls)+2 && !reent && !cancelCtx // the transport reports io.ErrClosedPipe after a local Close (default: socket-style net.ErrClosed)
 		var r *rcRun
 		sc := &vrt.Scenario{
-			Name:  fmt.Sprintf("C18/F%d/late-config=%v/pipe-errors=%v/reentrant-callbacks=%v/same-baseclient-reused=%v/%s", f, late, pipe, reent, reuse, rcName(reqs)),
+			Name:  fmt.Sprintf("C18/F%d/late-config=%v/pipe-errors=%v/reentrant-callbacks=%v/same-baseclient-reused=%v/connect-ctx-cancelled=%v/%s", f, late, pipe, reent, reuse, cancelCtx, rcName(reqs)),
 			Bound: vrt.Budget{F: f, T: 1},
 			Cfg:   vrt.Config{Horizon: int64(120 * time.Second), EarlyTimers: true},
 			Body: func() {
-				rcExecuteInto(&rcCfg{Reqs: reqs, Faults: faults, KeepSession: true, RespTimeout: c18Timeout, RespTimeoutLate: late, PipeErrors: pipe, Reentrant: reent, ReuseBase: reuse}, &r)
+				rcExecuteInto(&rcCfg{Reqs: reqs, Faults: faults, KeepSession: true, RespTimeout: c18Timeout, RespTimeoutLate: late, PipeErrors: pipe, Reentrant: reent, ReuseBase: reuse, CancelConnectCtx: cancelCtx}, &r)
 				c18Oracle(r)
 			},
 			Observe: func() uint64 { return r.net.TraceHash() },
